@@ -90,7 +90,6 @@ package gateway
 //@ track k8s.io/client-go/util/retry.RetryOnConflict as writeRoute
 //@ func (*gatewayController).EnsureRoutes
 //@ props C13 C03
-//@ requires r != nil && strategy != nil && r.conf.TrafficConf != nil && r.conf.TrafficConf.HTTPRouteName != nil
 //@ requires step_routes: strategy.Traffic != nil || len(strategy.Matches) > 0
 //@ ensures verified_means_nothing_written: result0 ==> result1 == nil && #writeRoute == 0 && #Update == 0 && #Patch == 0 && #Create == 0 && #Delete == 0 && #desiredRoute == 1
 //@ ensures one_read_one_plan: #Get <= 1 && #desiredRoute <= 1 && #writeRoute <= 1
@@ -100,7 +99,6 @@ package gateway
 // false (the caller's grace wrapper then observes "nothing modified").
 //@ func (*gatewayController).Finalise
 //@ props C13 C05
-//@ requires r != nil && r.conf.TrafficConf != nil && r.conf.TrafficConf.HTTPRouteName != nil
 //@ ensures modified_means_written: result0 ==> result1 == nil && #writeRoute == 1 && #desiredRoute == 1
 //@ ensures restore_plan: #desiredRoute <= 1 && #writeRoute <= 1
 
